@@ -119,10 +119,10 @@ func checkC18(r *core.Run) {
 // lockException: explicit internal-assertion panics under a lock. Each entry names one construct
 // (function, lock) and the invariant that makes the panic unreachable from peer input.
 var c18LockExceptions = map[string]string{
-	"(*client/network.OneConnection).FetchMessage|panic-held|c.Mutex":                     "assertion hdr_len <= 24: SockRead fills hdr[hdr_len:24], so n <= 24-hdr_len",
+	"(*client/network.OneConnection).FetchMessage|panic-held|c.Mutex":                    "assertion hdr_len <= 24: SockRead fills hdr[hdr_len:24], so n <= 24-hdr_len",
 	"client/network.CachedBlocksDel|panic-held|client/network.CachedBlocksMutex":         "assertion on the node's own cache index (idx within CachedBlocks, sizes consistent); arguments come from the node's own bookkeeping, not from peer bytes",
-	"(*lib/chain.BlockDB).BlockInvalid|panic-held|db.mutex":                               "assertion: a block already marked trusted is never invalidated (trusted is set only after full validation)",
-	"(*lib/chain.BlockDB).writeOne|panic-held|db.disk_access":                             "local disk write failure: the node deliberately stops (not peer-controlled)",
+	"(*lib/chain.BlockDB).BlockInvalid|panic-held|db.mutex":                              "assertion: a block already marked trusted is never invalidated (trusted is set only after full validation)",
+	"(*lib/chain.BlockDB).writeOne|panic-held|db.disk_access":                            "local disk write failure: the node deliberately stops (not peer-controlled)",
 	"(*client/network.OneConnection).ProcessCmpctBlock|panic-held|client/txpool.TxMutex": "assertion: every non-prefilled slot has a short id registered by the first loop over the same payload",
 }
 
